@@ -817,7 +817,7 @@ func PreprocessSearchQuery(fs object.SearchFilters, attrs []string, cursor strin
 		} else {
 			if IsIntegerSearchOp(primMatcher) {
 				f := ofs[0]
-				if !f.AutoMatch && primMatcher == object.MatchNumGT {
+				if !f.AutoMatch && (primMatcher == object.MatchNumGE || primMatcher == object.MatchNumGT) {
 					primSeekKey = slices.Concat([]byte{metaPrefixAttrIDInt}, []byte(attrs[0]), MetaAttributeDelimiter, f.Raw)
 					primKeysPrefix = primSeekKey[:1+len(attrs[0])+attributeDelimiterLen]
 				} else {
